@@ -4,7 +4,7 @@
    derivative everywhere). *)
 From Coq Require Import Reals QArith Qreals List Lra Bool.
 From Coquelicot Require Import Coquelicot.
-From DV Require Import Base.Field Base.LinAlg Base.RInst Model.Enums Model.AD Gen.ADTerms Gen.Euler Proofs.C20AD.
+From DV Require Import Base.Field Base.LinAlg Base.RInst Model.Enums Model.AD Model.GradFlowSpec Gen.ADTerms Gen.Euler Gen.GradFlow Proofs.C20AD.
 Import ListNotations.
 Local Open Scope R_scope.
 
@@ -31,14 +31,14 @@ Fixpoint total (e : expr) : bool :=
   | EAdd a b | ESub a b | EMul a b => total a && total b
   | EDiv a (EC q) => total a && negb (Qeq_bool q 0)
   | EDiv _ _ => false
-  | ENeg a => total a
+  | ENeg a | ECut a => total a
   | EU Usqrt _ | EU Uln _ => false
   | EU _ a => total a
   end.
 
 Lemma total_defined (e : expr) : total e = true -> forall env, defined env e.
 Proof.
-  induction e as [q | j | a IHa b IHb | a IHa b IHb | a IHa b IHb | a IHa b IHb | a IHa | f a IHa]; simpl; intros H env; auto.
+  induction e as [q | j | a IHa b IHb | a IHa b IHb | a IHa b IHb | a IHa b IHb | a IHa | f a IHa | a IHa]; simpl; intros H env; auto.
   - apply andb_prop in H as [H1 H2]. split; auto.
   - apply andb_prop in H as [H1 H2]. split; auto.
   - apply andb_prop in H as [H1 H2]. split; auto.
@@ -50,7 +50,8 @@ Qed.
 
 Definition total_families : list (list expr) :=
   [gen_ad_euler_XYZ; gen_ad_euler_ZXZ; gen_ad_euler_XYX; gen_ad_euler_2d; gen_ad_homogeneous_transform_2d;
-   gen_ad_homogeneous_transform_3d; gen_ad_hmm_affine_translation; gen_ad_hmm_3d; gen_ad_mse_loss; gen_ad_ssd_loss;
+   gen_ad_homogeneous_transform_3d; gen_ad_hmm_affine_translation; gen_ad_hmm_3d; gen_ad_hmm_affine_homogeneous;
+   gen_ad_hmm_homogeneous_affine; gen_ad_hmm_translation_homogeneous; gen_ad_hmm_homogeneous_translation; gen_ad_hmm_affine_affine; gen_ad_mse_loss; gen_ad_ssd_loss;
    gen_ad_divergence_loss; gen_ad_bending_loss_fcb; gen_ad_curvature_loss_fcb; gen_ad_jacobian_det_2d; gen_ad_divergence_2d;
    gen_ad_curl_2d; gen_ad_affine_flow].
 
@@ -65,3 +66,23 @@ Proof.
   pose proof total_families_total as H. rewrite forallb_forall in H.
   specialize (H outs Ho). rewrite forallb_forall in H. apply H, He.
 Qed.
+
+(* no traced deepali function detaches, reads .data or computes under no_grad anything on a path from an input to
+   an output: reverse-mode differentiation of every traced family returns the true derivative *)
+Definition families_cutfree : bool := forallb (fun f => forallb cutfree (snd (snd f))) gen_ad_families.
+Lemma families_cutfree_hold : families_cutfree = true.
+Proof. vm_compute. reflexivity. Qed.
+
+Lemma families_autograd_sound (name : String.string) (nv : nat) (outs : list expr) (e : expr) (env : nat -> R) (i : nat) :
+  In (name, (nv, outs)) gen_ad_families -> In e outs -> defined env e ->
+  is_derive (fun t => evalR (upd env i t) e) (env i) (evalR env (G i e)).
+Proof.
+  intros Hf He Hd. apply G_sound; [| exact Hd].
+  pose proof families_cutfree_hold as H. unfold families_cutfree in H. rewrite forallb_forall in H.
+  specialize (H _ Hf). cbn [snd] in H. rewrite forallb_forall in H. apply H, He.
+Qed.
+
+(* the gradient-flow skeleton of every operation of the registry (traced on the real autograd graph): attached, depending
+   on every leaf, no cut between a leaf and the output *)
+Lemma gradflow_holds : gradflow_ok gen_gradflow = true /\ Nat.leb 300 (List.length gen_gradflow) = true.
+Proof. split; vm_compute; reflexivity. Qed.
